@@ -20,6 +20,10 @@ package types
 //@   ensures nonneg_mint: minted >= 0
 //@   ensures noovermint: (k >= 0 ==> minted * pow10(k) * DEC_ONE <= burned * raw(ratio))
 //@                    && (k <  0 ==> minted * DEC_ONE <= burned * raw(ratio) * pow10(0 - k))
+// ... and never burns more than what is minted is worth: the burned amount is the least one worth the minted amount
+// (one unit less would not pay for it), so the remainder stays with the sender instead of being destroyed
+//@   ensures least:      (k >= 0 ==> (burned - 1) * raw(ratio) < minted * pow10(k) * DEC_ONE)
+//@                    && (k <  0 ==> (burned - 1) * raw(ratio) * pow10(0 - k) < minted * DEC_ONE)
 //@   ensures exact1: raw(ratio) == DEC_ONE ==> (k >= 0 ==> minted * pow10(k) == burned) && (k < 0 ==> minted == burned * pow10(0 - k))
 //@   ensures dust1:  raw(ratio) == DEC_ONE ==> input - burned < pow10(max(k, 0))
 //@ end
